@@ -119,6 +119,7 @@ def reduce (zero : β) (s : List α) (initial : β) (f : β → α → β) : β 
 /-- `xslices.Repeat`; `none` = panic (`make` with a negative length) -/
 def repeatN (zero : α) (x : α) (n : Int) : Option (List α) :=
   if repeatMake n < 0 then none
+  else if repeatMake n > Stdlib.allocLimit then none     -- `make`: len out of range
   else some ((List.replicate (repeatMake n).toNat zero).map fun old => if repeatBody = ["out[i] = s"] then x else old)
 
 /-! ## xslices: wrappers over package slices (`Sl` = slice value with its backing array) -/
